@@ -26,7 +26,13 @@ pub fn vx_parse_f64_or0_as_i64(t: &str) -> (r: i64) { unimplemented!() }
 pub struct VxPairs { pub n: i32 }
 pub struct VxPestErr { pub n: i32 }
 #[verifier::external_body]
-pub fn calculate(line: &str) -> (r: Result<VxPairs, VxPestErr>) { unimplemented!() }
+pub fn calculate(line: &str, Tracked(pc): Tracked<&mut ParseCount>) -> (r: Result<VxPairs, VxPestErr>)
+    requires deepest_at(line@, '(', ')', line@.len() as int) <= MAX_NESTING as int,   //@L C05+C19.calc.the_parser_is_given_only_lines_within_the_nesting_limit
+    ensures final(pc).parsed == old(pc).parsed + 1
+{ unimplemented!() }
+pub ghost struct ParseCount { pub parsed: int }
+#[verifier::external_body]
+pub proof fn new_parse_count() -> (tracked r: ParseCount) ensures r.parsed == 0 { unimplemented!() }
 // calc.next().unwrap().into_inner(): the single `calculation` pair of a successful parse (pest iterator, trusted)
 #[verifier::external_body]
 pub fn vx_inner_expr(calc: VxPairs) -> (r: VxPairs) { unimplemented!() }
@@ -43,6 +49,39 @@ pub fn eval_int(e: VxPairs, Tracked(md): Tracked<&mut CalcMode>) -> (r: i64)
 pub fn vx_f64_to_string(x: f64) -> String { unimplemented!() }
 #[verifier::external_body]
 pub fn vx_i64_to_string(x: i64) -> String { unimplemented!() }
+
+// ---- tools::nesting_depth (repair a105e61): how deep open .. close pairs are nested in a text at most; an open that is never closed counts ----
+//@TYPE MAX_NESTING
+// the limit itself: 1000 levels of the deepest of the three recursions (a full shell pass per `$(`) were measured to fit the 8 MB main stack of a debug build, 5000 not
+pub proof fn chk_nesting_limit()
+    requires MAX_NESTING <= 200,   //@L C05.nesting.the_limit_is_far_below_what_the_stack_was_measured_to_hold
+{ }
+// the running depth after the first n characters, and the deepest it has been
+pub open spec fn depth_at(t: Seq<char>, open: char, close: char, n: int) -> int
+    decreases n
+{
+    if n <= 0 { 0 } else {
+        let d = depth_at(t, open, close, n - 1);
+        if t[n - 1] == open { d + 1 } else if t[n - 1] == close && d > 0 { d - 1 } else { d }
+    }
+}
+pub open spec fn deepest_at(t: Seq<char>, open: char, close: char, n: int) -> int
+    decreases n
+{
+    if n <= 0 { 0 } else {
+        let m = deepest_at(t, open, close, n - 1);
+        let d = depth_at(t, open, close, n);
+        if d > m { d } else { m }
+    }
+}
+pub proof fn lemma_depth_bounds(t: Seq<char>, open: char, close: char, n: int)
+    requires 0 <= n <= t.len()
+    ensures 0 <= depth_at(t, open, close, n) <= n, 0 <= deepest_at(t, open, close, n) <= n, depth_at(t, open, close, n) <= deepest_at(t, open, close, n)
+    decreases n
+{
+    if n > 0 { lemma_depth_bounds(t, open, close, n - 1); }
+}
+//@FN nesting_depth
 
 //@FN run_calculator
 
@@ -98,12 +137,19 @@ def gen_primary(g, canary):
     g.add('}', org)
 
 
+nesting_depth = Fn('src/tools.rs', 'nesting_depth', ret='r', loop_kinds={0: 'chars'}, props=('C05', 'C19', 'C12', 'C11'),
+    ensures=[('C05.nesting.the_depth_is_the_deepest_the_running_count_of_open_pairs_gets', 'r as int == deepest_at(text@, open, close, text@.len() as int)')],
+    loops={0: Loop(invariant=[('C05.inv.nesting.count', '__v0@ == text@ && depth as int == depth_at(text@, open, close, __i0 as int) && deepest as int == deepest_at(text@, open, close, __i0 as int) '
+                                                         '&& deepest <= __i0 && depth <= deepest')])},
+    hints={'fn-entry': 'chk_nesting_limit();', 'loop-0-body-entry': 'lemma_depth_bounds(text@, open, close, __i0 as int); lemma_depth_bounds(text@, open, close, __i0 as int + 1);'},
+)
 run_calculator = Fn('src/core.rs', 'run_calculator', ret='r',
-    add_params='Tracked(md): Tracked<&mut CalcMode>',
-    ghost_args={'eval_float': 'Tracked(md)', 'eval_int': 'Tracked(md)'},
+    add_params='Tracked(md): Tracked<&mut CalcMode>, Tracked(pc): Tracked<&mut ParseCount>',
+    ghost_args={'eval_float': 'Tracked(md)', 'eval_int': 'Tracked(md)', 'calculate': 'Tracked(pc)'},
     pre_rewrites=[
-        Rw(r'format!\("\{\}", (calculator::eval_float\(expr\))\)', r'vx_f64_to_string(\1)', regex=True, rule='R4', why='Display for f64 (opaque)'),
+        Rw('calculator::calculate(', 'calculate(', rule='R0', required=False), Rw(r'format!\("\{\}", (calculator::eval_float\(expr\))\)', r'vx_f64_to_string(\1)', regex=True, rule='R4', why='Display for f64 (opaque)'),
         Rw(r'format!\("\{\}", (calculator::eval_int\(expr\))\)', r'vx_i64_to_string(\1)', regex=True, rule='R4', why='Display for i64 (opaque)'),
+        Rw('tools::nesting_depth(', 'nesting_depth(', rule='R0'), Rw('tools::MAX_NESTING', 'MAX_NESTING', rule='R0'),
         Rw('calc.next().unwrap().into_inner()', 'vx_inner_expr(calc)', rule='R10',
            why='pest iterator: first pair of a successful parse (trusted)'),
         Rw('Ok(mut calc)', 'Ok(calc)', rule='R10', required=False),
@@ -113,7 +159,9 @@ run_calculator = Fn('src/core.rs', 'run_calculator', ret='r',
     requires=[('C19.pre.mode_fresh', '!old(md).used_float && !old(md).used_int')],
     ensures=[('C19.mode.float_iff_dot',
               'match r { Ok(_) => final(md).used_float == line@.contains(\'.\') && final(md).used_int == !line@.contains(\'.\'), '
-              'Err(_) => !final(md).used_float && !final(md).used_int }')],
+              'Err(_) => !final(md).used_float && !final(md).used_int }'),
+             ('C05+C19.calc.a_line_nested_deeper_than_the_limit_is_rejected_before_it_is_parsed',
+              'deepest_at(line@, \'(\', \')\', line@.len() as int) > MAX_NESTING as int ==> r.is_err() && final(pc).parsed == old(pc).parsed')],
     props=('C19',),
 )
 
@@ -123,13 +171,13 @@ try_run_calculator = Fn('src/core.rs', 'try_run_calculator', ret='r', props=('C1
                   Rw('println_stderr!("cicada: calculator: {}", err);', 'vx_eprintln_io(&err);', rule='R3', why='printing the diagnostic'),
                   Rw('println_stderr!("cicada: calculator: {}", e);', 'vx_eprintln_calc(e);', rule='R3', why='printing the diagnostic'),
                   Rw('e.to_string()', 'vx_s(e)', rule='R7', required=False)],
-    ghost_args={'run_calculator': 'Tracked(&mut md)'},
-    hints={'before-call:run_calculator': 'RAW: let tracked mut md = new_mode();'},
+    ghost_args={'run_calculator': 'Tracked(&mut md), Tracked(&mut pc)'},
+    hints={'before-call:run_calculator': 'RAW: let tracked mut md = new_mode(); let tracked mut pc = new_parse_count();'},
     ensures=[('C19.dispatch.a_line_is_evaluated_as_arithmetic_exactly_when_it_is_classified_as_arithmetic', 'r.is_some() == spec_is_arith(line@)'),
              ],
 )
-UNIT = Unit('U-CALC', TEMPLATE, fns=[run_calculator, try_run_calculator, Fn('src/types.rs', 'new', impl='CommandResult'), Fn('src/types.rs', 'from_status', impl='CommandResult')],
-            types=[TypeItem('src/types.rs', 'struct', 'CommandResult')], raw={'primary_num': gen_primary}, props=('C19', 'C05'))
+UNIT = Unit('U-CALC', TEMPLATE, fns=[nesting_depth, run_calculator, try_run_calculator, Fn('src/types.rs', 'new', impl='CommandResult'), Fn('src/types.rs', 'from_status', impl='CommandResult')],
+            types=[TypeItem('src/types.rs', 'struct', 'CommandResult'), TypeItem('src/tools.rs', 'const', 'MAX_NESTING')], raw={'primary_num': gen_primary}, props=('C19', 'C05'))
 TRUSTED = common.TRUSTED_STR + [
     'str::parse::<i64> / parse::<f64>: std contracts (Ok iff a decimal in range); float->int `as` cast saturates (never panics)',
     'pest: calculator::calculate and the Pairs iterator are external; calc.next().unwrap() on a successful parse is trusted',
